@@ -176,6 +176,17 @@ fn corrupt(r: &Response, rng: &mut SimRng, unspent: &BTreeSet<u64>, out_mmr_size
 			let o = leaf_data_start + each * i + rng.usize_below(each);
 			out.bytes[o] ^= 1 << rng.below(8);
 			kind = "leaf-data";
+			if std::env::var("VERIF_DEBUG").is_ok() {
+				let po = leaf_pos_start + 8 * i;
+				let mut b8 = [0u8; 8];
+				b8.copy_from_slice(&r.bytes[po..po + 8]);
+				let pos1 = u64::from_be_bytes(b8);
+				let idx = grin_core::core::pmmr::n_leaves(pos1) - 1;
+				eprintln!(
+					"  corrupt leaf-data: segment {:?} leaf #{} of {} pos1 {} idx {} unspent {} sibling-unspent {} last {} record {} bytes, byte {} of the record",
+					ident_key(&r.id), i, r.n_leaves, pos1, idx, unspent.contains(&idx), unspent.contains(&(idx ^ 1)), pos1 == out_mmr_size, each, o - leaf_data_start - each * i
+				);
+			}
 		}
 		1 if !bound.is_empty() => {
 			let i = *rng.pick(&bound);
@@ -238,8 +249,23 @@ fn corrupt(r: &Response, rng: &mut SimRng, unspent: &BTreeSet<u64>, out_mmr_size
 			}
 		}
 	}
+	// a flipped bit the decoder ignores (e.g. the clamped length prefix of a range proof) leaves the
+	// decoded segment identical to the honest one: that is not a changed segment
+	if out.other_root == r.other_root && canonical(&out).as_deref() == Some(&r.bytes[..]) {
+		return None;
+	}
 	out.corrupted = Some(kind.to_string());
 	Some(out)
+}
+
+/// The bytes the node itself would write for the segment it decodes from `r` (None if undecodable).
+fn canonical(r: &Response) -> Option<Vec<u8>> {
+	match r.id.segment_type {
+		SegmentType::Bitmap => de::<BitmapSegment>(&r.bytes).ok().map(|s| sv(&s)),
+		SegmentType::Output => de::<Segment<OutputIdentifier>>(&r.bytes).ok().map(|s| sv(&s)),
+		SegmentType::RangeProof => de::<Segment<RangeProof>>(&r.bytes).ok().map(|s| sv(&s)),
+		SegmentType::Kernel => de::<Segment<TxKernel>>(&r.bytes).ok().map(|s| sv(&s)),
+	}
 }
 
 /// Deliver one response to the desegmenter the way NetToChainAdapter::receive_*_segment does.
